@@ -289,6 +289,17 @@ def run(ctx):
     if not ctx.replay_cases or "mixed-formats" in replay_sections:
         inc = "tasks:\n  2024:\n    command: [\"echo y2024 >> \\\"$PROJ/out\\\"\"]\n  extra:\n    command: [\"echo extra >> \\\"$PROJ/out\\\"\"]\n    env: {404: nf}\n"
         main = {"import": ["inc.yaml"], "tasks": {"main": {"command": ['echo main >> "$PROJ/out"']}}}
+        # files and directories whose names merely BEGIN like a URL scheme are files and directories
+        hmain = {"import": ["http-checks.yaml", "httpd"], "tasks": {"main": {"command": ['echo main >> "$PROJ/out"']}}}
+        hj = {"id": 0, "files": {"cfg.yaml": json.dumps(hmain), "http-checks.yaml": json.dumps({"tasks": {"h1": {"command": ['echo h1 >> "$PROJ/out"']}}}),
+                                 "httpd/x.yaml": json.dumps({"tasks": {"h2": {"command": ['echo h2 >> "$PROJ/out"']}}})}, "argv": ["-c", "cfg.yaml", "--raw", "main", "h1", "h2"], "keep": ["out"]}
+        hr = clilib.run_cli(os.path.join(ctx.workdir, "httpnames"), [hj], timeout=20)[0]
+        res.evaluations += 1
+        res.count("http-like-names")
+        res.nontrivial_keys.add("http-like-names")
+        if hr["timeout"] or clilib.crashed(hr) or hr["rc"] != 0 or (hr["files"].get("out") or "").split() != ["main", "h1", "h2"]:
+            res.violations.append({"class": None, "what": "imported files / directories whose names begin with `http`: not every definition is available",
+                                   "case": {"kind": "mixed-formats", "files": hj["files"], "argv": hj["argv"]}, "observed": {"rc": hr["rc"], "out": hr["files"].get("out"), "err": (hr.get("err") or "")[-400:]}})
         mj = []
         for fn, text in (("cfg.json", json.dumps(main)), ("cfg.yaml", json.dumps(main)), ("cfg.toml", 'import = ["inc.yaml"]\n[tasks.main]\ncommand = ["echo main >> \\"$PROJ/out\\""]\n')):
             mj.append({"id": len(mj), "files": {fn: text, "inc.yaml": inc}, "argv": ["-c", fn, "--raw", "main", "2024", "extra"], "keep": ["out"], "fn": fn})
